@@ -933,23 +933,35 @@ func RunPool(c *ev.Ctx, cfg PoolConfig, units []Unit, order []int) *Result {
 	return p.res
 }
 
-// Order returns the hand-out order of units: the model shards first (if the
+// Order returns the hand-out order of units: the name-tie block and the bundle units, then the model shards (if the
 // budget is cut short it is the seed menus that lose their tail), then the
 // seed units by decreasing size of the seed; VERIF_SEED rotates it.
 func Order(units []Unit, seed int64) []int {
-	var seeds, model []int
+	var first, seeds, model []int
 	for i, u := range units {
-		if u.Kind == "model" || u.Kind == "model3" {
+		switch u.Kind {
+		case "ties", "bundle":
+			first = append(first, i)
+		case "model", "model3":
 			model = append(model, i)
-		} else {
+		default:
 			seeds = append(seeds, i)
 		}
 	}
 	sort.SliceStable(seeds, func(a, b int) bool { return len(units[seeds[a]].Base) > len(units[seeds[b]].Base) })
-	order := append(model, seeds...)
+	order := append(append(first, model...), seeds...)
 	if n := len(order); n > 0 && seed != 0 {
 		r := int(uint64(seed) % uint64(n))
 		order = append(order[r:], order[:r]...)
+	}
+	if only := os.Getenv("CERTS_ONLY"); only != "" { // development aid: the units left out are reported as not enumerated
+		var f []int
+		for _, i := range order {
+			if strings.Contains(units[i].Name, only) {
+				f = append(f, i)
+			}
+		}
+		order = f
 	}
 	return order
 }
